@@ -200,6 +200,36 @@ def load_known():
         return json.load(f).get("findings", [])
 
 
+UNIT_TEST_TEMPLATE = '''"""Plain unit test replaying ONE violating case of {pid} without the explorer (no enumeration, no worker pool).
+Run:  cd /verif && /venv/bin/python <this file>   (or with pytest); set MPILOT_VERIF_REPO to test another tree.
+Reported as: {what}
+"""
+import importlib
+import sys
+
+sys.path.insert(0, "/verif")
+CASE = {case}
+KEY = {key}
+
+
+def test_case_holds():
+    from mc import snapshot
+
+    snapshot.take()  # import mpilot from a scratch copy of the repository's working tree
+    mod = importlib.import_module("{mod}")
+    if hasattr(mod, "prepare"):
+        mod.prepare("quick")
+    res = mod.run(CASE)
+    hits = [v["what"] for v in res.get("viols") or () if v["key"] == KEY]
+    assert not hits, hits[0]
+
+
+if __name__ == "__main__":
+    test_case_holds()
+    print("PASS: the case no longer violates", KEY)
+'''
+
+
 def _safe(key):
     return "".join(c if c.isalnum() or c in "-_." else "_" for c in key)[:150]
 
@@ -264,6 +294,9 @@ def run_check(modname, tier, seed, jobs=None, replay=None):
         with open(path, "w") as f:
             json.dump({"property": pid, "key": key, "what": what, "case": case, "detail": detail, "tier": tier,
                        "replay": "./check %s --replay %s" % (pid, path)}, f, indent=1, sort_keys=True)
+        with open(path[:-5] + "_test.py", "w") as f:
+            f.write(UNIT_TEST_TEMPLATE.format(pid=pid, mod=modname, case=repr(case), key=repr(key),
+                                              what=what[:300].replace('"' * 3, "'''").replace("\\", "/")))
         new_keys.append((key, what, path))
 
     samples = acc["samples"]
